@@ -1,6 +1,6 @@
 #!/bin/bash
 # usage: tools/try_patch.sh <patch.diff> <check ids...> : like try_seed.sh but for an arbitrary patch, in scratch worktree /tmp/seedwt/X1
-p=$(readlink -f $1); shift; wt=${WT:-/tmp/seedwt/X1}
+p=$(readlink -f $1); shift; wt=${WT:-/tmp/seedwt/X4}
 cd $wt && git checkout -q -- . && git apply $p || { echo "patch does not apply"; exit 3; }
 cd /verif
 for id in "$@"; do
